@@ -66,6 +66,7 @@ typedef struct carquet_page_writer {
     /* Options */
     bool write_crc;          /* Compute and write CRC32 for pages */
     bool write_statistics;   /* Write min/max statistics in page header */
+    bool unsigned_order;     /* INT32/INT64 column annotated as unsigned: min/max in unsigned order */
 
     /* Statistics tracking */
     bool has_min_max;
@@ -218,6 +219,12 @@ static void update_statistics_i32(carquet_page_writer_t* writer,
             int32_t min_v, max_v;
             memcpy(&min_v, writer->min_value, sizeof(min_v));
             memcpy(&max_v, writer->max_value, sizeof(max_v));
+            if (writer->unsigned_order) {
+                /* statistics follow the column's logical type: UINT_32 */
+                if ((uint32_t)v < (uint32_t)min_v) memcpy(writer->min_value, &v, sizeof(v));
+                if ((uint32_t)v > (uint32_t)max_v) memcpy(writer->max_value, &v, sizeof(v));
+                continue;
+            }
             if (v < min_v) memcpy(writer->min_value, &v, sizeof(v));
             if (v > max_v) memcpy(writer->max_value, &v, sizeof(v));
         }
@@ -237,6 +244,11 @@ static void update_statistics_i64(carquet_page_writer_t* writer,
             int64_t min_v, max_v;
             memcpy(&min_v, writer->min_value, sizeof(min_v));
             memcpy(&max_v, writer->max_value, sizeof(max_v));
+            if (writer->unsigned_order) {
+                if ((uint64_t)v < (uint64_t)min_v) memcpy(writer->min_value, &v, sizeof(v));
+                if ((uint64_t)v > (uint64_t)max_v) memcpy(writer->max_value, &v, sizeof(v));
+                continue;
+            }
             if (v < min_v) memcpy(writer->min_value, &v, sizeof(v));
             if (v > max_v) memcpy(writer->max_value, &v, sizeof(v));
         }
@@ -691,6 +703,12 @@ int64_t carquet_page_writer_num_values(const carquet_page_writer_t* writer) {
 void carquet_page_writer_set_crc(carquet_page_writer_t* writer, bool enabled) {
     if (writer) {
         writer->write_crc = enabled;
+    }
+}
+
+void carquet_page_writer_set_unsigned_order(carquet_page_writer_t* writer, bool enabled) {
+    if (writer) {
+        writer->unsigned_order = enabled;
     }
 }
 
